@@ -96,6 +96,7 @@ def gen_world_r(files, repo, ctx, log):
         stem = path.rsplit("/", 1)[-1].rsplit(".", 1)[0]
         out.append("use super::cdefs_%s::*;" % stem)
         toks = core.read_tokens(repo, path)
+        divisors = {toks[i + 1].text for i in range(len(toks) - 1) if toks[i].text == "/" and toks[i + 1].kind == "id"}
         for (name, ty, expr, ln) in core.const_items(toks):
             if ty not in ("Float", "f64"): continue
             v = eval_const(expr)
@@ -103,6 +104,9 @@ def gen_world_r(files, repo, ctx, log):
             out.append("pub broadcast axiom fn cl_%s(b: f64) ensures R(#[trigger] %s_s().mul_spec(b)) == %s * R(b);" % (name, name, real(v)))
             out.append("pub broadcast axiom fn cr_%s(b: f64) ensures R(#[trigger] b.mul_spec(%s_s())) == R(b) * %s;" % (name, name, real(v)))
             names += ["ax_" + name, "cl_" + name, "cr_" + name]
+            if v != 0 and name in divisors:   # only for constants the source divides by (`/ NAME`)
+                out.append("pub broadcast axiom fn cd_%s(a: f64) ensures R(#[trigger] a.div_spec(%s_s())) == R(a) / %s;" % (name, name, real(v)))
+                names.append("cd_" + name)
             log.append(("GEN", path, ln, "World-R axioms for const %s = %s" % (name, v)))
     lits = sorted(ctx.get("float_lits", set()))
     seen = {}
